@@ -223,7 +223,7 @@ def r_cache(E):
                         f"also depends on {gaps}: two calls that agree on the key and differ there get the first one's "
                         f"result", rel, node.lineno, q, {"clauses": [tag]}))
                 elif len(res.samples) < 4:
-                    res.samples.append({"site": f"{rel}:{node.lineno} {q}", "table": D, "key": norm(K)[:50],
+                    res.samples.append({"site": f"{rel}:{int(node.lineno)} {q}", "table": D, "key": norm(K)[:50],
                                         "verdict": "key covers the value's inputs"})
             for node, cf, what in _mutations_of_cached_results(fn, cached):
                 res.findings.append(Finding(
